@@ -56,8 +56,72 @@ template <bool LOCK> struct SbHist {
     }
 };
 
+// ---------------------------------------------------------------- C18: histories on a secret_string (needs -DHMAC_CPP_VERIF)
+struct ThrowInt {};
+static std::string sshist(const std::vector<std::string>& ops) {
+    secret_string* x = new secret_string();
+    const std::array<uint8_t, 32>& pk = secret_string::verif_process_key();
+    std::string out = "pk=" + hx(pk.data(), 32);
+    Bytes cur;                                        // plaintext the object should hold
+    for (size_t k = 0; k < ops.size(); ++k) {
+        const std::string& o = ops[k]; char c = o[0];
+        Bytes p = (c == 'S' || c == 'I') ? bx(o.substr(2)) : Bytes();
+        hw::clear_needles(); hw::add_needle(p.empty() ? cur.data() : p.data(), p.empty() ? cur.size() : p.size(), 1);
+        hw::begin(1);
+        if (c == 'S') { x->set(p.data(), p.size()); cur = p; }
+        else if (c == 'R') x->rotate_nonce();
+        else if (c == 'C') { x->clear(); cur.clear(); }
+        else if (c == 'I') { *x = secret_string(p.data(), p.size()); cur = p; }
+        else if (c == 'O') { secret_string y(std::move(*x)); cur.clear(); }
+        else throw std::logic_error("sshist op");
+        long heap_dirty = hw::end().dirty;
+        // stored representation
+        std::string st = " | ct=" + hx(x->verif_ct()) + ",nonce=" + hx(x->verif_nonce().data(), 12) + ",tag=" + hx(x->verif_tag().data(), 32);
+        // reveal (normal callback), with the interposer looking for the plaintext in released blocks
+        hw::clear_needles(); hw::add_needle(cur.data(), cur.size(), 2);
+        std::string rv, revealed;                     // the revealed copy belongs to the caller: it outlives the watch region
+        hw::begin(1);
+        try { revealed = x->reveal_copy(); rv = "ok"; } catch (const std::runtime_error&) { rv = "throw:runtime_error"; } catch (...) { rv = "throw:other"; }
+        long wipe_dirty = hw::end().dirty;
+        if (rv == "ok") rv = "ok " + hxs(revealed);
+        // throwing callbacks: std exception and a non-std type
+        for (int kind = 0; kind < 2; ++kind) {
+            hw::begin(1);
+            try { x->with_plaintext([&](const uint8_t*, size_t) { if (kind == 0) throw std::runtime_error("cb"); else throw ThrowInt(); }); }
+            catch (...) {}
+            wipe_dirty += hw::end().dirty;
+        }
+        // at rest: the stored bytes do not contain the plaintext (8-byte windows)
+        bool opaque = true;
+        if (cur.size() >= 8) { hw::clear_needles(); hw::add_needle(cur.data(), cur.size(), 3); hw::g_mode = 1; hw::g_dirty = 0; hw::g_ndirty_ids = 0;
+            hw::scan(x->verif_ct().data(), x->verif_ct().size()); if (hw::g_dirty) opaque = false; hw::g_dirty = 0; hw::g_ndirty_ids = 0; }
+        // tamper sweep: every single-bit modification of tag and nonce, sampled bits of the ciphertext
+        std::string tamper = "ok";
+        if (!x->verif_ct().empty()) {
+            for (int bit = 0; bit < 256 && tamper == "ok"; ++bit) { x->verif_tag()[bit / 8] ^= (uint8_t)(1 << (bit % 8));
+                try { std::string r = x->reveal_copy(); tamper = "FAIL:tag-bit"; } catch (const std::runtime_error&) {} catch (...) { tamper = "FAIL:tag-othersignal"; }
+                x->verif_tag()[bit / 8] ^= (uint8_t)(1 << (bit % 8)); }
+            for (int bit = 0; bit < 96 && tamper == "ok"; ++bit) { x->verif_nonce()[bit / 8] ^= (uint8_t)(1 << (bit % 8));
+                try { std::string r = x->reveal_copy(); tamper = "FAIL:nonce-bit"; } catch (const std::runtime_error&) {} catch (...) { tamper = "FAIL:nonce-othersignal"; }
+                x->verif_nonce()[bit / 8] ^= (uint8_t)(1 << (bit % 8)); }
+            size_t nb = x->verif_ct().size() * 8;
+            for (size_t bit = 0; bit < nb && tamper == "ok"; bit += (nb > 256 ? 7 : 1)) { x->verif_ct()[bit / 8] ^= (uint8_t)(1 << (bit % 8));
+                try { std::string r = x->reveal_copy(); tamper = "FAIL:ct-bit"; } catch (const std::runtime_error&) {} catch (...) { tamper = "FAIL:ct-othersignal"; }
+                x->verif_ct()[bit / 8] ^= (uint8_t)(1 << (bit % 8)); }
+            // a modified ciphertext LENGTH (truncation / extension) is a modification too
+            { uint8_t last = x->verif_ct().back(); x->verif_ct().pop_back();
+              if (!x->verif_ct().empty()) { try { std::string r = x->reveal_copy(); tamper = "FAIL:ct-truncated"; } catch (const std::runtime_error&) {} catch (...) { tamper = "FAIL:ct-othersignal"; } }
+              x->verif_ct().push_back(last); }
+        }
+        out += st + ",reveal=" + rv + ",heap=" + (heap_dirty ? "dirty" : "clean") + ",wipe=" + (wipe_dirty ? "dirty" : "clean") + ",opaque=" + (opaque ? "yes" : "NO") + ",tamper=" + tamper;
+    }
+    delete x;
+    return out;
+}
+
 static std::string run(const std::vector<std::string>& a) {
     const std::string& op = a[0];
+    if (op == "sshist") return sshist(std::vector<std::string>(a.begin() + 1, a.end()));
     if (op == "sbhist") { std::vector<std::string> ops(a.begin() + 2, a.end()); return a[1] == "1" ? SbHist<true>::run(ops) : SbHist<false>::run(ops); }
     throw std::logic_error("unknown op " + op);
 }
@@ -70,7 +134,7 @@ int main(int argc, char** argv) {
         std::vector<std::string> a = split(line, ' ');
         if (a.empty()) continue;
         std::string r = guarded([&]() { return run(a); });
-        fputs(r.c_str(), stdout); fputc('\n', stdout);
+        fputs(r.c_str(), stdout); fputc('\n', stdout); fflush(stdout);
     }
     return 0;
 }
